@@ -344,7 +344,7 @@ def cmp(op, a, b):
             import math
             k = math.floor(c) + 1 if op == "Lt" else math.ceil(c)
             return ige(b, k)
-    if op in ("Eq", "NotEq") and (is_intlike(a) or is_intlike(b)) and (a[0] == "num" or b[0] == "num") and not (a[0] == "num" and b[0] == "num"):
+    if op in ("Eq", "NotEq") and ((is_intlike(a) and a[0] != "num" and b[0] == "num") or (is_intlike(b) and b[0] != "num" and a[0] == "num")):
         x, c = (a, b[1]) if b[0] == "num" else (b, a[1])
         if c.denominator == 1:
             k = int(c)
@@ -455,19 +455,41 @@ def substitute(t, mapping):
     return tuple(substitute(x, mapping) if isinstance(x, tuple) else x for x in t)
 
 
-def alpha(t):
-    """canonical renaming of bound variables ('bv', n) by order of first occurrence"""
-    ren = {}
+BINDERS = {"map": 2, "flatmap": 2, "exists": 2, "forall": 2, "sum": 2, "last": 2}
 
-    def go(x):
-        if isinstance(x, tuple):
-            if len(x) == 2 and x[0] == "bv":
-                if x[1] not in ren:
-                    ren[x[1]] = len(ren)
-                return ("bv", ren[x[1]])
-            return tuple(go(y) for y in x)
-        return x
-    return go(t)
+
+def alpha(t):
+    """canonical renaming of bound variables: binders get de Bruijn levels ('bv', 'dN') (scope-aware, so sibling
+    comprehensions agree), free ('bv', n) are numbered by order of first occurrence"""
+    free = {}
+
+    def go(x, env, depth):
+        if not isinstance(x, tuple):
+            return x
+        if len(x) == 2 and x[0] == "bv":
+            if x in env:
+                return env[x]
+            if x[1] not in free:
+                free[x[1]] = len(free)
+            return ("bv", free[x[1]])
+        if x and isinstance(x[0], str) and x[0] in BINDERS and len(x) > 3 and isinstance(x[2], tuple) and len(x[2]) == 2 and x[2][0] == "bv":
+            bv = x[2]
+            new = ("bv", f"d{depth}")
+            env2 = dict(env)
+            env2[bv] = new
+            out = [x[0], go(x[1], env2, depth + 1), new, go(x[3], env, depth)]     # the iterable lives in the outer scope
+            for y in x[4:]:
+                out.append(go(y, env2, depth + 1))
+            return tuple(out)
+        if x and x[0] == "lambda" and len(x) == 3:
+            env2 = dict(env)
+            ps = []
+            for i, p_ in enumerate(x[1]):
+                env2[p_] = ("bv", f"d{depth}_{i}")
+                ps.append(env2[p_])
+            return ("lambda", tuple(ps), go(x[2], env2, depth + 1))
+        return tuple(go(y, env, depth) for y in x)
+    return go(t, {}, 0)
 
 
 def show(t, depth=0):
